@@ -294,7 +294,9 @@ func LogicalImage(dbBytes, walBytes []byte, pageSizeHint int) (*Image, error) {
 			if pg == LockPgno(ps) {
 				p = make([]byte, ps)
 			} else {
-				return nil, fmt.Errorf("page %d of %d missing from database file (%d bytes) and WAL", pg, size, len(dbBytes))
+				// Neither in the log nor in the (shorter) file: SQLite reads such a page as zeros (a free-list leaf that was
+				// never written). A page that should have content and is missing shows up in the comparison with the reference image.
+				p = make([]byte, ps)
 			}
 		}
 		im.Pages = append(im.Pages, append([]byte(nil), p...))
